@@ -176,5 +176,8 @@ static inline void wb_thread_join(struct wb_thread *t) { WB_ASSERT(t->joinable, 
 struct wb_mt19937 { unsigned long state; };
 struct wb_uniform_real { double a; double b; };
 struct wb_normal_dist { double mean; double stddev; };
+/* drawing from a distribution: contract stubs (the engine state is the only thing assigned) */
+double wb_uniform_real_draw(struct wb_uniform_real *dist, struct wb_mt19937 *engine);
+double wb_normal_draw(struct wb_normal_dist *dist, struct wb_mt19937 *engine);
 
 #endif
